@@ -70,7 +70,9 @@ def rules(ctx, db):
                "Ok(()) is returned only after an idle worker took the job (try_send Ok) or after a new worker was "
                "spawned and the job was sent to the pool", f)
     # worker never increments
-    wk = [f for f in db.fns.values() if f.id.startswith("compio_driver::asyncify::worker")]
+    # the worker body (and the function that builds it): found by role — it blocks on the pool's channel
+    wk = [f for f in db.fns.values() if f.id.startswith("compio_driver::asyncify::") and calls(f, r"^flume::Receiver::<T>::recv_timeout$")]
+    wk += [db.fns[f.parent] for f in list(wk) if f.parent in db.fns and db.fns[f.parent] not in wk]
     ctx.floor("R1", "worker bodies", len(wk), 2)
     for f in wk:
         incs = [(bb, t) for bb, t in atomic_calls(f) if call_matches(t, r"::fetch_add$|::fetch_update$|::store$")]
